@@ -14,6 +14,10 @@ type output struct {
 	file          *codegen.File
 	declsByName   map[string]*codegen.TypeDecl
 	declsBySchema map[*schemas.Type]*codegen.TypeDecl
+	// namedBySchema remembers schemas that turned out to be just another name
+	// for an existing named type, so that they are not generated over again
+	// for every reference to them.
+	namedBySchema map[*schemas.Type]codegen.Type
 	warner        func(string)
 }
 
